@@ -470,6 +470,14 @@ func (fr *Frame) execBinOp(x *ssa.BinOp, st *State, r string) {
 		case token.OR, token.XOR, token.AND_NOT:
 			res := vc.fresh(x.Name(), SInt)
 			vc.assert(sEq(res, t))
+			// the operators on single bits (all that the uninterpreted bitor / bitxor are given)
+			bits := sAnd(sOr(sEq(A, "0"), sEq(A, "1")), sOr(sEq(B, "0"), sEq(B, "1")))
+			switch x.Op {
+			case token.XOR:
+				vc.assert(sImp(bits, sEq(t, fmt.Sprintf("(ite (= %s %s) 0 1)", A, B))))
+			case token.OR:
+				vc.assert(sImp(bits, sEq(t, fmt.Sprintf("(ite (and (= %s 0) (= %s 0)) 0 1)", A, B))))
+			}
 			fr.assumeTypeFacts("true", rt, []string{res}, st)
 			fr.regs[x] = []string{res}
 			return
